@@ -14,9 +14,41 @@ class ProcessKilled(BaseException):
     """the producer process was killed (not an Exception: `except Exception` handlers of the producer do not run)"""
 
 
+class Inode:
+    def __init__(self, data):
+        self.data = data
+
+
+class _FilesView:
+    """path -> durable content (what a reader sees); writes through to inodes"""
+
+    def __init__(self, fs):
+        self.fs = fs
+
+    def get(self, path, default=None):
+        ino = self.fs.inodes.get(path)
+        return default if ino is None else ino.data
+
+    def __contains__(self, path):
+        return path in self.fs.inodes
+
+    def __getitem__(self, path):
+        return self.fs.inodes[path].data
+
+    def __setitem__(self, path, data):
+        self.fs.inodes[path] = Inode(data)
+
+    def __delitem__(self, path):
+        del self.fs.inodes[path]
+
+    def pop(self, path):
+        return self.fs.inodes.pop(path).data
+
+
 class ModelFS:
     def __init__(self, crash_at=-1, partial=0, fault_at=-1, fault_errno=_errno.ENOSPC):
-        self.files = {}  # path -> str/bytes content (durable)
+        self.inodes = {}  # path -> Inode (an open file keeps writing to its inode after a rename, as on POSIX)
+        self.files = _FilesView(self)
         self.crash_at = crash_at
         self.partial = partial
         self.fault_at = fault_at
@@ -52,6 +84,7 @@ class ModelFS:
             if "w" in mode or path not in self.files:
                 self.files[path] = b"" if binary else ""
             f = _WFile(self, path, binary)
+            f.inode = self.inodes[path]
             self.open_files.append(f)
             return f
         if path not in self.files:
@@ -62,7 +95,7 @@ class ModelFS:
         self.step("rename", src + " -> " + dst)
         if src not in self.files:
             raise FileNotFoundError(_errno.ENOENT, "No such file", src)
-        self.files[dst] = self.files.pop(src)
+        self.inodes[dst] = self.inodes.pop(src)
 
     replace = rename
 
@@ -84,6 +117,10 @@ class ModelFS:
     def close_fd(self, fd):
         pass
 
+    def fsync(self, fd):
+        """kernel buffers -> disk: a step, but Python's user-space buffer is NOT written by it"""
+        self.step("fsync", "fd%d" % fd)
+
     def exists(self, path):
         return path in self.files
 
@@ -97,8 +134,7 @@ class _WFile:
         self.name = path
 
     def _commit(self, data):
-        if self.path in self.fs.files:
-            self.fs.files[self.path] = self.fs.files[self.path] + data
+        self.inode.data = self.inode.data + data
 
     def write(self, data):
         if self.closed:
@@ -125,7 +161,10 @@ class _WFile:
             self.fs.step("close", self.path)
 
     def tell(self):
-        return len(self.fs.files.get(self.path, "")) + len(self.buf)
+        return len(self.inode.data) + len(self.buf)
+
+    def fileno(self):
+        return 2000 + self.fs.open_files.index(self)
 
     def __enter__(self):
         return self
